@@ -1,6 +1,8 @@
 """C11 — envelope and imposition are the lattice join and meet of uncertain numbers.
 
-proof  : Pun.Props.C11 (binary env/imp are lub/glb of the containment order on well-formed p-boxes, imp raises iff
+proof  : Pun.Props.C11Gen (the reductions, crossing test, exception and fold re-extracted from the source on every run by
+         translator/envimp.py are proved equal to the hand model, so the theorems below hold for what the source says now);
+         Pun.Props.C11 (binary env/imp are lub/glb of the containment order on well-formed p-boxes, imp raises iff
          the operands have no common selection, comm/assoc/idem, the folds over any listing order agree, the
          all-Interval shortcut is the interval hull and converts to the p-box envelope, `in` follows the order)
 tie    : `envelope(*ops)` / `imposition(*ops)` for families of 0..5 operands of mixed Python kinds in EVERY listing order
@@ -638,7 +640,8 @@ def run(ctx: core.Check):
     ctx.assumptions = ["bounds of Distribution / DempsterShafer operands are taken from their own to_pbox() (C08 / C09 are about those)",
                        "moments are stubbed in the harness process (C04's concern); output_type other than 'pbox' is not exercised",
                        "vector Intervals and sample-based Distribution objects are outside the modelled operand kinds"]
-    ctx.lean_stage(["Pun.Lemmas.EnvImp", "Pun.Props.C11"])
+    ctx.lean_stage(["Pun.Lemmas.EnvImp", "Pun.Props.C11", "Pun.Props.C11Gen"],
+                   generators=[("pbox_abc.py Staircase.env/imp, aggregation.py envelope/imposition, intervals/methods.py env", _gen)])
     from pyuncertainnumber.pba.aggregation import envelope, imposition
     from pyuncertainnumber.pba.operation import convert
     fams = gen_families(ctx)
@@ -1016,6 +1019,15 @@ def run(ctx: core.Check):
         elif must_false and impl[1] is not False:
             ctx.fail({**feat, "symptom": "true-for-outside"}, case,
                      f"`in` is True although the item's range leaves the container's range ({what})")
+
+
+def _gen():
+    from .translator import envimp
+    r = envimp.generate(core.REPO, core.LEAN / "Pun/Gen/EnvImpGen.lean")
+    t = lambda x: f"{x[0]}({x[1][0]}.{x[1][1]},{x[2][0]}.{x[2][1]})"
+    return (f"ok: env left={t(r['env']['left'])} right={t(r['env']['right'])}; imp raises {r['imp']['exc']} if {r['imp']['quant']} "
+            f"{t(r['imp']['guardL'])} {r['imp']['cmp']} {t(r['imp']['guardR'])}, left={t(r['imp']['left'])} right={t(r['imp']['right'])}; "
+            f"envelope {r['envelope']}; imposition {r['imposition']}; hull lo={t(r['hull']['left'])} hi={t(r['hull']['right'])}")
 
 
 def replay(obj):
